@@ -414,7 +414,8 @@ class C02(WithEL):
                     fails.append(("C02:lost", f"timer {k} was accepted {v} times and never cancelled, but fired {fired[k]} "
                                   f"times in a run that ended by exhaustion"))
         if completed(case, impl) and case["cfg"]["handlers"]:
-            executed = len(afters(impl["trace"]))
+            # an event whose callback let an exception escape was executed, but its after-step hooks were not reached
+            executed = len(afters(impl["trace"])) + len(impl.get("raisedAt", []))
             expected = sum(acc_t.values()) + sum(got.values())
             if executed != expected:
                 fails.append(("C02:event-count", f"run to exhaustion executed {executed} events; accepted timers + "
@@ -583,6 +584,7 @@ class C03(WithEL):
 # ------------------------------------------------------------------------------------------------
 class C04(SimCheck):
     prop = "C04"
+    allow_tolerant = False     # its exactness clause compares with a second, unbounded run
     level_text = ("Theorems for every configuration and program: the termination predicate spelled out; every executed event "
                   "is within the duration and below the iteration limit; no callback (finish included) observes a time after "
                   "the duration; a live step within both bounds executes exactly the head event (events AT the duration run); "
